@@ -6,6 +6,8 @@ import (
 	"fmt"
 	"runtime/debug"
 	"sort"
+	"strings"
+	"sync"
 	"testing"
 
 	"github.com/cloudwego/gopkg/bufiox"
@@ -37,7 +39,9 @@ func (p PStr) String() string {
 // a few conventional ones.
 var tthValueVocabulary = []string{ttheader.FrameTypeMeta, ttheader.FrameTypeHeader, ttheader.FrameTypeData, ttheader.FrameTypeTrailer, "0", "5", "thrift", "grpc", "ttheader", "true"}
 var tthKeyVocabulary = []string{ttheader.HeaderIDLServiceName, ttheader.HeaderTransRemoteAddr, ttheader.HeaderTransToCluster, ttheader.HeaderTransToIDC, ttheader.HeaderTransPerfTConnStart,
-	ttheader.HeaderTransPerfTConnEnd, ttheader.HeaderTransPerfTSendStart, ttheader.HeaderTransPerfTRecvStart, ttheader.HeaderTransPerfTRecvEnd, ttheader.HeaderConnectionReadyToReset, ttheader.HeaderProcessAtTime}
+	ttheader.HeaderTransPerfTConnEnd, ttheader.HeaderTransPerfTSendStart, ttheader.HeaderTransPerfTRecvStart, ttheader.HeaderTransPerfTRecvEnd, ttheader.HeaderConnectionReadyToReset, ttheader.HeaderProcessAtTime,
+	// keys that differ from a named key only in letter case, or by one character
+	strings.ToLower(ref.ACLTokenKey), strings.ToUpper(ref.ACLTokenKey), strings.Title(strings.ToLower(ref.ACLTokenKey)), ref.ACLTokenKey + " ", ref.ACLTokenKey[1:], "ISN", "Rip", "k_processattime", "CRRST"}
 
 func eqStrMap(a, b map[string]string) bool {
 	if len(a) != len(b) {
@@ -613,7 +617,7 @@ func TestC06_HugePayload(t *testing.T) {
 
 // TestC06_Vocabulary: header parameter sets built from the constants the package itself names.
 func TestC06_Vocabulary(t *testing.T) {
-	rec := evid.New("C06", "c06_vocabulary", "enumeration: flags {0, streaming, out-of-order, duplex-reverse, SASL, streaming|out-of-order} x the 5 supported protocol ids x int info {none, empty map, one entry (k, v) for every key k = 0..29 (all named uint16 keys incl. FrameType, and two beyond) and v in {\"\", the four frame-type values, \"0\"}, FrameType = v together with a second named key} x string info {nil, empty, one named string key} x 3 writers alternating 2 readers; distinct by construction")
+	rec := evid.New("C06", "c06_vocabulary", "enumeration: flags {0, streaming, out-of-order, duplex-reverse, SASL, streaming|out-of-order} x the 5 supported protocol ids x int info {none, empty map, one entry (k, v) for every key k = 0..29 (all named uint16 keys incl. FrameType, and two beyond) and v in {\"\", the four frame-type values, \"0\"}, FrameType = v together with a second named key} x string info {nil, empty, one named string key; keys that differ from the acl-token key in letter case or by one character, with and without a real token} x 3 writers alternating 2 readers; distinct by construction")
 	defer rec.Flush()
 	flags := []uint16{0, uint16(ttheader.HeaderFlagsStreaming), uint16(ttheader.HeaderFlagSupportOutOfOrder), uint16(ttheader.HeaderFlagDuplexReverse), uint16(ttheader.HeaderFlagSASL), uint16(ttheader.HeaderFlagsStreaming | ttheader.HeaderFlagSupportOutOfOrder)}
 	protos := []byte{byte(ttheader.ProtocolIDThriftBinary), byte(ttheader.ProtocolIDThriftCompactV2), byte(ttheader.ProtocolIDKitexProtobuf), byte(ttheader.ProtocolIDThriftStruct), byte(ttheader.ProtocolIDProtobufStruct)}
@@ -652,6 +656,13 @@ func TestC06_Vocabulary(t *testing.T) {
 				for sm := 0; sm < 3; sm++ {
 					jobs = append(jobs, job{f, p, is, sm})
 				}
+				if len(is.entries) == 0 && !is.nonNil {
+					// string keys that look like the acl-token key (letter case, one character more or less),
+					// with and without a real acl token next to them
+					for sm := 3; sm < 3+2*5; sm++ {
+						jobs = append(jobs, job{f, p, is, sm})
+					}
+				}
 			}
 		}
 	}
@@ -668,6 +679,13 @@ func TestC06_Vocabulary(t *testing.T) {
 			c.StrNonNil = true
 		case 2:
 			c.Str = []TTHStrEntry{{K: PStr{Lit: tthKeyVocabulary[i%len(tthKeyVocabulary)]}, V: PStr{Lit: "v"}}}
+		case 0:
+		default:
+			alike := []string{strings.ToLower(ref.ACLTokenKey), strings.ToUpper(ref.ACLTokenKey), strings.Title(strings.ToLower(ref.ACLTokenKey)), ref.ACLTokenKey + " ", ref.ACLTokenKey[1:]}
+			c.Str = []TTHStrEntry{{K: PStr{Lit: alike[(j.sm-3)%5]}, V: PStr{Lit: "look-alike"}}}
+			if (j.sm-3)/5 == 1 {
+				c.ACL = &PStr{Lit: "real-token"}
+			}
 		}
 		var cv cov
 		v := checkTTHRoundTrip(c, &cv)
@@ -694,6 +712,27 @@ func TestC06_Vocabulary(t *testing.T) {
 
 // ---- C10: hostile frames ----------------------------------------------------------------------------
 
+var twoFramesOnce struct {
+	sync.Once
+	b []byte
+}
+
+// twoFrames returns a fresh copy of a buffer holding two complete frames back to back (the first without payload).
+func twoFrames() []byte {
+	twoFramesOnce.Do(func() {
+		for i := 0; i < 2; i++ {
+			f := buildFrame(0, 0, int32(40+i), 0, nil, []tthSection{{id: 0x10, count: 1, ints: []ref.IntKV{{K: 9, V: "m"}}}}, nil)
+			if i == 1 {
+				f = append(f, 1, 2, 3) // only the second frame has a payload: what follows the first header is a frame
+			}
+			total := uint32(len(f) - 4)
+			f[0], f[1], f[2], f[3] = byte(total>>24), byte(total>>16), byte(total>>8), byte(total)
+			twoFramesOnce.b = append(twoFramesOnce.b, f...)
+		}
+	})
+	return append([]byte(nil), twoFramesOnce.b...)
+}
+
 // TTHFrameCase is an arbitrary byte string given to the TTHeader decoders.
 type TTHFrameCase struct {
 	Data evid.Hex     `json:"data"`
@@ -716,15 +755,29 @@ func checkTTHDecode(c TTHFrameCase, cv *cov) *evid.Violation {
 		err     error
 		readLen int
 	}
-	for variant := 0; variant < 6; variant++ {
+	for variant := 0; variant < 7; variant++ {
 		var r res
 		r.readLen = -1
-		if variant >= 4 && !rf.OK {
-			break
+		if (variant == 4 || variant == 5) && !rf.OK {
+			continue
 		}
 		name := ""
 		p, st := safeFault(func() {
 			switch variant {
+			case 6:
+				// history: the previous call decoded a buffer that holds a complete frame followed by more bytes
+				// (a second frame); this call gets a buffer of exactly its own bytes (nil when empty)
+				name = "DecodeFromBytes right after a DecodeFromBytes call that left unread bytes behind its frame"
+				if _, perr := ttheader.DecodeFromBytes(ctx, twoFrames()); perr != nil {
+					panic(fmt.Sprintf("harness: the two-frame buffer does not decode: %v", perr))
+				}
+				var own []byte
+				if len(in) > 0 {
+					own = append(make([]byte, 0, len(in)), in...)
+				} else if c.Plan.WithData {
+					own = []byte{}
+				}
+				r.dp, r.err = ttheader.DecodeFromBytes(ctx, own)
 			case 5:
 				// decode the same bytes three times and scribble over the maps of the earlier results: every
 				// decode must hand out maps of its own
@@ -889,12 +942,15 @@ func genTTHFrameCase(t *rapid.T) TTHFrameCase {
 	var secs []tthSection
 	nsec := rapid.IntRange(0, 5).Draw(t, "nsec")
 	for i := 0; i < nsec; i++ {
-		s := tthSection{id: rapid.SampledFrom([]byte{1, 1, 0x10, 0x10, 0x11}).Draw(t, "sid"), pad: rapid.SampledFrom([]int{0, 0, 0, 1, 3}).Draw(t, "pad")}
+		s := tthSection{id: rapid.SampledFrom([]byte{1, 1, 0x10, 0x10, 0x11}).Draw(t, "sid"), pad: rapid.SampledFrom([]int{0, 0, 0, 0, 1, 3, 4, 7, 8, 9, 16, 24, 32, 40}).Draw(t, "pad")}
 		n := rapid.IntRange(0, 3).Draw(t, "n")
 		for j := 0; j < n; j++ {
 			key := short("k")
-			if rapid.IntRange(0, 5).Draw(t, "aclKey") == 0 {
+			switch rapid.IntRange(0, 11).Draw(t, "aclKey") {
+			case 0, 1:
 				key = ref.ACLTokenKey // the ACL token's map key written as an ordinary entry: order decides
+			case 2:
+				key = rapid.SampledFrom([]string{strings.ToLower(ref.ACLTokenKey), strings.ToUpper(ref.ACLTokenKey), strings.Title(strings.ToLower(ref.ACLTokenKey)), ref.ACLTokenKey + " ", ref.ACLTokenKey[1:]}).Draw(t, "alike")
 			}
 			s.strs = append(s.strs, ref.StrKV{K: key, V: short("v")})
 			s.ints = append(s.ints, ref.IntKV{K: rapid.Uint16Range(0, 5).Draw(t, "ik"), V: short("iv")})
@@ -1037,6 +1093,52 @@ func TestC10_Exhaustive(t *testing.T) {
 var _ = sort.Strings
 
 // TestC10_ManyKeys: frames with 1000 distinct 12-byte string keys each, decoded one after the other.
+// TestC10_PaddingRuns: zero runs of every length 0..72 in front of every kind of section, at the start of
+// the info area and behind another section.
+func TestC10_PaddingRuns(t *testing.T) {
+	rec := evid.New("C10", "c10_padding_runs", "enumeration: a run of 0..72 zero bytes (padding ids) in front of a section of each kind {string pairs, int pairs, acl token (empty and non-empty)}, with and without another section before the run and with 0..3 transform ids (so that the run starts at every alignment); decoded by all variants and compared with the reference parser; distinct by construction")
+	defer rec.Flush()
+	b := evid.NewBatch()
+	kinds := []tthSection{
+		{id: 1, count: 1, strs: []ref.StrKV{{K: "k", V: "v"}}},
+		{id: 0x10, count: 1, ints: []ref.IntKV{{K: 5, V: "iv"}}},
+		{id: 0x11, token: ""},
+		{id: 0x11, token: "tok"},
+	}
+	for run := 0; run <= 72; run++ {
+		for ki, k := range kinds {
+			for lead := 0; lead < 2; lead++ {
+				for ntr := 0; ntr < 4; ntr++ {
+					var secs []tthSection
+					if lead == 1 {
+						secs = append(secs, tthSection{id: 0x10, count: 1, ints: []ref.IntKV{{K: 1, V: "x"}}})
+					}
+					sec := k
+					sec.pad = run
+					secs = append(secs, sec)
+					frame := buildFrame(100, 0, int32(run), 0, make([]byte, ntr), secs, nil)
+					c := TTHFrameCase{Data: append(frame, 9, 9, 9), Plan: faultio.Plan{Chunks: []int{1 + (run+ki)%9}, ErrAt: -1, WithData: run%2 == 0}}
+					var cv cov
+					v := checkTTHDecode(c, &cv)
+					b.Evals++
+					b.Distinct++
+					if cv.nontrivial {
+						b.Nontrivial++
+					}
+					if v != nil {
+						failEnum(t, rec, "c10_tth_decode", c, v)
+						rec.Merge(b)
+						return
+					}
+				}
+			}
+		}
+	}
+	rec.Merge(b)
+	rec.Sample(map[string]interface{}{"zero_run": 16, "then": "acl token section with an empty token"})
+	rec.SetExhaustive()
+}
+
 func TestC10_ManyKeys(t *testing.T) {
 	rec := evid.New("C10", "c10_many_keys", "frames carrying 1000 distinct 12-byte (and 7-byte) string keys (counter-valued) with 1-byte values, decoded one after the other by DecodeFromBytes; every key and value compared with the frame; distinct by construction")
 	defer rec.Flush()
